@@ -394,3 +394,11 @@ def p7(ctx):
 
 
 RULES = [p1, p2, p3, p4, p5, p6, p7]
+
+
+@rule("LC", doc="loop-exit census: every iterator-driven loop of the library runs to exhaustion, except a frozen per-file reviewed set of search / error-propagation loops")
+def lc(ctx):
+    C.loop_census(ctx, ctx.lib())
+
+
+RULES.append(lc)
